@@ -331,8 +331,10 @@ Example C04_printed_nonvacuous :
   let a := CexPrintDefs.MVar "p_a_address_01" "a" "address" "BitVec" 256 (171 * 2 ^ 160 + 5) in
   CexPrintSpec.read_cex (CexPrintModel.render_model [x; a]) =
     Some [("p_a_address_01"%string, 171 * 2 ^ 160 + 5); ("p_x_uint8_00"%string, 4660)] /\
-  CexPrintModel.render_line x = String CexPrintSpec.nl "    p_x_uint8_00 = 0x1234"%string /\
-  CexPrintModel.hexify_int 0 = "0x00"%string /\ CexPrintModel.hexify_int 10 = "0x0a"%string /\
+  CexPrintSpec.read_cex (CexPrintModel.render_line x) = Some [("p_x_uint8_00"%string, 4660)] /\
+  CexPrintSpec.read_cex (String CexPrintSpec.nl "    p_x_uint8_00 = 0x1234") = Some [("p_x_uint8_00"%string, 4660)] /\
+  CexPrintSpec.read_cex (String CexPrintSpec.nl "    p_x_uint8_00 = 0x00" ++ String CexPrintSpec.nl "    p_y_uint8_01 = 0x0a") =
+    Some [("p_x_uint8_00"%string, 0); ("p_y_uint8_01"%string, 10)] /\
   CexPrintSpec.read_cex (CexPrintModel.render_model []) = Some [] /\
   CexPrintSpec.read_cex "p_x_uint8_00 = 0x34" = None.
 Proof. vm_compute. repeat split; reflexivity. Qed.
